@@ -14,6 +14,7 @@
 package main
 
 import (
+	"bufio"
 	"bytes"
 	"context"
 	"errors"
@@ -21,6 +22,7 @@ import (
 	stdhtml "html"
 	"io"
 	"log"
+	"net"
 	"net/http"
 	"net/http/httptest"
 	"net/netip"
@@ -292,9 +294,94 @@ func runRoute(c *vhlib.Ctx, method string, ri, hi int) {
 	}
 }
 
+// ---------------------------------------------------------------- the real server
+
+// The server that storrent really runs: http.Serve(addr) registers the handlers on
+// http.DefaultServeMux and serves that mux.  Whatever any linked package registered on the
+// default mux is reachable here (and only here: VerifMux builds a mux of its own).  Serve
+// may be called once per process.
+var realAddr string
+var realErr error
+
+func startReal() {
+	if realAddr != "" || realErr != nil {
+		return
+	}
+	l, err := net.Listen("tcp", "127.0.0.1:0")
+	if err != nil {
+		realErr = err
+		return
+	}
+	addr := l.Addr().String()
+	l.Close()
+	if err := shttp.Serve(addr); err != nil {
+		realErr = err
+		return
+	}
+	realAddr = addr
+}
+
+// doReal sends one request over TCP with exactly the given Host header.
+func doReal(method, target, host string) response {
+	var r response
+	conn, err := net.DialTimeout("tcp", realAddr, 5*time.Second)
+	if err != nil {
+		r.panic = "dial: " + err.Error()
+		return r
+	}
+	defer conn.Close()
+	conn.SetDeadline(time.Now().Add(5 * time.Second))
+	fmt.Fprintf(conn, "%s %s HTTP/1.1\r\nHost: %s\r\nConnection: close\r\nContent-Length: 0\r\n\r\n", method, target, host)
+	resp, err := http.ReadResponse(bufio.NewReader(conn), &http.Request{Method: method})
+	if err != nil {
+		r.panic = "read: " + err.Error()
+		return r
+	}
+	defer resp.Body.Close()
+	body, _ := io.ReadAll(io.LimitReader(resp.Body, 1<<20))
+	r.code, r.hdr, r.body = resp.StatusCode, resp.Header, string(body)
+	return r
+}
+
+// well-known paths of handlers that packages register on the default mux as a side effect
+var probePaths = []string{"/debug/pprof/", "/debug/pprof/cmdline", "/debug/pprof/heap", "/debug/pprof/goroutine?debug=2", "/debug/pprof/symbol",
+	"/debug/vars", "/debug/requests", "/debug/events", "/metrics", "/favicon.ico", "/robots.txt", "/debug/", "/debug"}
+
+func runReal(c *vhlib.Ctx, method, target string, hi int, label string) {
+	op := fmt.Sprintf("x real %s %s %d %s", method, vhlib.Hex([]byte(target)), hi, label)
+	c.Emit(op, "x")
+	if hi < 0 || hi >= len(hosts) {
+		return
+	}
+	startReal()
+	if realErr != nil {
+		c.Note("the real server could not be started: " + realErr.Error())
+		c.Count("real:unavailable", label, false)
+		return
+	}
+	ensureBaseline()
+	hst := hosts[hi]
+	before := snapshot()
+	r := doReal(method, target, hst.host)
+	after := snapshot()
+	c.Count("real:"+hst.class+":"+strconv.Itoa(r.code), method+" "+target+" "+hst.name, true)
+	if r.panic != "" {
+		violate(c, "real-server-error:"+label, fmt.Sprintf("%s %s Host=%q: %s", method, target, hst.host, r.panic), []string{op})
+		return
+	}
+	if hst.class == "refuse" {
+		if r.code != http.StatusForbidden && r.code != http.StatusBadRequest {
+			violate(c, "not-refused:defaultmux:"+label, fmt.Sprintf("%s %s with Host %q answered %d through the real server (http.DefaultServeMux), not refused: %q", method, target, hst.host, r.code, trunc(r.body, 120)), []string{op})
+		}
+		if before != after {
+			violate(c, "refused-but-changed:defaultmux:"+label, fmt.Sprintf("%s %s with Host %q changed the state", method, target, hst.host), []string{op})
+		}
+	}
+}
+
 // ---------------------------------------------------------------- injection
 
-var fields = []string{"name", "name-single", "name-magnet", "filepath", "dirpath", "tracker-url", "tracker-error",
+var fields = []string{"name", "name-single", "name-magnet", "filepath", "dirpath", "dir-first", "dir-middle", "dir-last", "dir-twice", "file-siblings", "tracker-url", "tracker-error",
 	"webseed-url", "httpseed-url", "known-version", "known-id", "peer-version", "peer-id"}
 
 // payload templates; %M is the marker
@@ -315,6 +402,73 @@ var payloads = []string{
 	`<script>alert("%M")<script>`,
 	`<svg onload=%M>`,
 	`<textarea><title>%M<b id=%M>`,
+	// every dangerous byte once more percent-encoded (upper/lower case hex, doubly encoded),
+	// entity-encoded, and as Unicode look-alikes / overlong UTF-8: a decoder applied after a
+	// sanitiser (or a second decoding step somewhere) turns these back into the real thing
+	"%M%0Ahttp:%2F%2Fevil.example%2F%M.mp3",
+	"%M%0d%0a#EXTINF:-1%2C%M%0d%0ahttp:%2F%2Fevil.example%2Fx",
+	"%M%250A%M%252C%2525",
+	"%M%3Cscript%3Ealert(1)%3C%2Fscript%3E%M",
+	"%M%22%3E%3Cimg%20src=x%20onerror=%M%3E%27%26",
+	"%M&#10;%M&#13;&#x3c;b&#62;&#34;&#39;",
+	"%M&amp;lt;b&amp;gt;%M&quot;&lt;i&gt;&amp;amp;",
+	"%M\u2028%M\u2029\uff1cb\uff1e\uff02",
+	"%M\xc0\x8a%M\xc0\xbcb\xc0\xbe\xe0\x80\x8a",
+	"%M%c0%8a%M%C0%BC%e2%80%a8",
+	"%M%u000a%M%%0A%0",
+	"%M%20%23%3F%2c%M%3c%3e",
+}
+
+// encoded forms of the dangerous bytes, spliced into generated strings
+var encTokens = []string{"%0A", "%0a", "%0D", "%0d", "%0D%0A", "%2C", "%2c", "%3C", "%3c", "%3E", "%22", "%27", "%26", "%25", "%20", "%2F", "%2f",
+	"%3F", "%23", "%250A", "%250a", "%252C", "%2525", "%25250A", "&#10;", "&#13;", "&#x0a;", "&lt;", "&gt;", "&amp;", "&amp;lt;", "&quot;", "&#39;", "&#x3c;",
+	"\u2028", "\u2029", "\u0085", "\uff1c", "\uff1e", "\uff0c", "\xc0\x8a", "\xc0\xbc", "\xe0\x80\xbc", "%c0%8a", "%C0%BC", "%e2%80%a8", "%u000a", "%", "%%", "%0", "%zz"}
+
+func layout(paths ...[]string) []nsgen.File {
+	var fs []nsgen.File
+	for i, p := range paths {
+		fs = append(fs, nsgen.File{Path: p, Length: int64(3 + i)})
+	}
+	return fs
+}
+
+// randomLayout: a random tree in which every component is the payload with probability
+// 1/3 (deterministic in the payload, so that the op line replays)
+func randomLayout(r *vhlib.Rand, payload string) []nsgen.File {
+	names := []string{payload, payload + "2", "a", "b", "\x01low", "~high", "cd1", "cd2"}
+	seen := map[string]bool{}
+	dirs := map[string]bool{}
+	var out [][]string
+	for i := 0; i < 10; i++ {
+		depth := 1 + r.Intn(4)
+		var p []string
+		for d := 0; d < depth; d++ {
+			if r.Chance(33) {
+				p = append(p, payload)
+			} else {
+				p = append(p, names[r.Intn(len(names))])
+			}
+		}
+		k := strings.Join(p, "\x00")
+		bad := seen[k] || dirs[k]
+		for j := 1; j < len(p); j++ {
+			if seen[strings.Join(p[:j], "\x00")] {
+				bad = true
+			}
+		}
+		if bad {
+			continue
+		}
+		seen[k] = true
+		for j := 1; j < len(p); j++ {
+			dirs[strings.Join(p[:j], "\x00")] = true
+		}
+		out = append(out, p)
+	}
+	if len(out) == 0 {
+		out = [][]string{{payload, "a"}}
+	}
+	return layout(out...)
 }
 
 type fakePeer struct {
@@ -374,6 +528,23 @@ func runInject(c *vhlib.Ctx, field, marker, payload string) {
 	case "dirpath":
 		m.Files[0].Path = []string{payload, "f1"}
 		m.Files[1].Path = []string{payload, "f2"}
+	// nested layouts: the rendering of a row depends on the previous row (lastdir), so the
+	// string must also sit in components shared between consecutive rows
+	case "dir-first":
+		m.Files = layout([]string{payload, "cd1", "a"}, []string{payload, "cd2", "b"}, []string{payload, "cd2", "c"},
+			[]string{payload, "z"}, []string{"\x01low", "x"}, []string{"~high", "y"})
+	case "dir-middle":
+		m.Files = layout([]string{"top", payload, "cd1", "a"}, []string{"top", payload, "cd2", "b"}, []string{"top", payload, "cd3", "d", "e"},
+			[]string{"top", "\x01low", "r"}, []string{"top", "~high", "r"}, []string{"u"})
+	case "dir-last":
+		m.Files = layout([]string{"top", "mid", payload, "a"}, []string{"top", "mid", payload, "b"}, []string{"top", "mid", payload + "2", "c"},
+			[]string{"top", "mid", "\x01low", "c"}, []string{"top", "other", payload, "a"})
+	case "dir-twice":
+		m.Files = layout([]string{payload, payload, "cd1", "a"}, []string{payload, payload, "cd2", "b"}, []string{payload, "k", "c"})
+	case "file-siblings":
+		m.Files = layout([]string{"d", payload}, []string{"d", payload + "2"}, []string{"d", "e", payload}, []string{payload})
+	case "layout":
+		m.Files = randomLayout(vhlib.NewRand(uint64(len(payload))*7919+uint64(vhlib.Fnv64([]byte(payload)))), payload)
 	case "tracker-url":
 		m.AnnounceL = [][]string{{"http://tracker.example/" + payload}, {"weird://" + payload}}
 	case "webseed-url":
@@ -448,11 +619,15 @@ func runInject(c *vhlib.Ctx, field, marker, payload string) {
 		switch {
 		case strings.HasPrefix(ct, "text/html"):
 			links := checkHTML(c, op, pg.name, field, marker, payload, r.body, &rendered)
-			if pg.name == "dir" {
+			if pg.name == "dir" || pg.name == "subdir" {
 				for _, l := range links {
-					if strings.HasPrefix(l, "/"+hs+"/") && strings.HasSuffix(l, "/") && !seenDirs[l] && len(seenDirs) < 4 {
+					if strings.HasPrefix(l, "/"+hs+"/") && strings.HasSuffix(l, "/") && !seenDirs[l] && len(seenDirs) < 16 {
 						seenDirs[l] = true
-						pages = append(pages, page{"subdir", l}, page{"subdir-playlist", l + "?playlist"})
+						el := l
+						if u, err := url.Parse(l); err == nil {
+							el = u.EscapedPath()
+						}
+						pages = append(pages, page{"subdir", el}, page{"subdir-playlist", el + "?playlist"})
 					}
 				}
 			}
@@ -810,12 +985,20 @@ const strAlpha = "&'<>\"&&<< ,;/?:@=+$%#\r\n\t\x00\x7f\xc3\xa9\xff-_.~aZ09"
 
 func genStr(r *vhlib.Rand, max int) string {
 	n := r.Intn(max + 1)
-	b := make([]byte, n)
-	for i := range b {
-		if r.Chance(85) {
-			b[i] = strAlpha[r.Intn(len(strAlpha))]
-		} else {
-			b[i] = byte(r.U64())
+	var b []byte
+	// a third of the strings are "clean" apart from encoded tokens, so that a decoder that
+	// insists on valid input accepts them
+	clean := r.Chance(33)
+	for i := 0; i < n; i++ {
+		switch {
+		case r.Chance(22):
+			b = append(b, encTokens[r.Intn(len(encTokens)-map[bool]int{true: 5, false: 0}[clean])]...)
+		case clean:
+			b = append(b, "abcXYZ019-_."[r.Intn(12)])
+		case r.Chance(85):
+			b = append(b, strAlpha[r.Intn(len(strAlpha))])
+		default:
+			b = append(b, byte(r.U64()))
 		}
 	}
 	return string(b)
@@ -884,6 +1067,9 @@ func main() {
 				ri, _ := strconv.Atoi(f[3])
 				hi, _ := strconv.Atoi(f[4])
 				runRoute(c, f[2], ri, hi)
+			case len(f) == 6 && f[0] == "x" && f[1] == "real":
+				hi, _ := strconv.Atoi(f[4])
+				runReal(c, f[2], string(vhlib.UnHex(f[3])), hi, f[5])
 			case len(f) == 5 && f[0] == "x" && f[1] == "inject":
 				runInject(c, f[2], string(vhlib.UnHex(f[3])), string(vhlib.UnHex(f[4])))
 			default:
@@ -898,6 +1084,42 @@ func main() {
 		for _, m := range methods {
 			for hi := range hosts {
 				runRoute(c, m, ri, hi)
+			}
+		}
+	}
+	// (1b) the same foreign Hosts through the REAL server (http.Serve -> DefaultServeMux)
+	// over TCP: every route, the well-known debug paths, some random paths
+	{
+		t := ensureBaseline()
+		hs := t.Hash.String()
+		type tgt struct{ target, label string }
+		var tgts []tgt
+		for _, p := range probePaths {
+			tgts = append(tgts, tgt{p, "probe:" + strings.SplitN(p, "?", 2)[0]})
+		}
+		for _, rt := range routes {
+			if rt.name != "unclean" {
+				tgts = append(tgts, tgt{rt.target(hs, addedHash), "route:" + rt.name})
+			}
+		}
+		for i := 0; i < 6; i++ {
+			w := []string{"debug", "pprof", "status", "admin", "api", "static", "x", hs[:8], "metrics", "vars"}
+			p := ""
+			for k := 1 + c.R.Intn(3); k > 0; k-- {
+				p += "/" + w[c.R.Intn(len(w))]
+			}
+			if c.R.Bool() {
+				p += "/"
+			}
+			tgts = append(tgts, tgt{p, "random"})
+		}
+		for _, tg := range tgts {
+			for _, m := range []string{"GET", "HEAD", "POST"} {
+				for hi, h := range hosts {
+					if h.class == "refuse" || h.name == "localhost:p" && strings.HasPrefix(tg.label, "probe") && m != "POST" {
+						runReal(c, m, tg.target, hi, tg.label)
+					}
+				}
 			}
 		}
 	}
@@ -921,6 +1143,10 @@ func main() {
 			runInject(c, f, marker, strings.ReplaceAll(tmpl, "%M", marker))
 		}
 	}
+	for pi, tmpl := range payloads {
+		marker := fmt.Sprintf("MKl%dZ", pi)
+		runInject(c, "layout", marker, strings.ReplaceAll(tmpl, "%M", marker))
+	}
 	if c.Tier == "thorough" {
 		for i := 0; i < 400; i++ {
 			f := fields[c.R.Intn(len(fields))]
@@ -929,6 +1155,9 @@ func main() {
 			}
 			marker := fmt.Sprintf("MKr%dZ", i)
 			pl := genStr(c.R, 6) + marker + genStr(c.R, 10) + payloads[c.R.Intn(len(payloads))]
+			if c.R.Chance(25) {
+				f = "layout"
+			}
 			runInject(c, f, marker, strings.ReplaceAll(pl, "%M", marker))
 		}
 	}
@@ -945,6 +1174,15 @@ func main() {
 	runPU(c, []string{"", ""})
 	runM3U(c, "localhost:8088", make([]byte, 20), nil)
 	runM3U(c, "localhost:8088", make([]byte, 20), []string{"a,b\r\nc"})
+	for _, tmpl := range payloads {
+		pl := strings.ReplaceAll(tmpl, "%M", "MK")
+		runM3U(c, "localhost:8088", make([]byte, 20), []string{"d", pl})
+		runPU(c, []string{pl, pl})
+		runHE(c, pl)
+	}
+	for _, tk := range encTokens {
+		runM3U(c, "localhost:8088", make([]byte, 20), []string{"a" + tk + "b"})
+	}
 	for i := 0; i < c.N; i++ {
 		genCorr(c, c.R)
 	}
